@@ -119,6 +119,10 @@ static void grids_T(const GridsC &c, vf::Obs &o) {
       std::vector<bspline::Spline<T, oa>> sp(cnt, a);
       sp[pos] = make_spline<T, oa>(g2, cb);
       std::vector<T> cf(cnt, mk<T>(3, 2));
+      // the refusal is a statement about the ARGUMENTS' grids, not about the coefficients: the foreign spline (or every
+      // spline) may well carry a vanishing coefficient (+0 / -0)
+      if (c.lcpos & 16) { cf[pos] = mk<T>(0); if constexpr (!isQ) if (c.lcpos & 32) cf[pos] = -cf[pos]; o.cls("lincomb:zero-coefficient-on-the-foreign-spline"); }
+      else if ((c.lcpos & 96) == 96) { for (auto &x : cf) x = mk<T>(0); o.cls("lincomb:all-coefficients-zero"); }
       const auto sp0 = sp;
       if (c.lcpos & 8) run([&] { auto r = bspline::linearCombination(cf.begin(), cf.end(), sp.begin(), sp.end()); (void)r; });
       else run([&] { auto r = bspline::linearCombination(cf, sp); (void)r; });
@@ -244,7 +248,7 @@ int main(int argc, char **argv) {
     CoefOpt co; co.dyadic = c.type == 1;
     gen_coeffs(c.a, 2, co); gen_coeffs(c.b, 2, co);
     c.v = gen_spline(c.g.n(), 1, -1, co);
-    c.lcpos = pick(0, 15); c.lccount = pick(2, 5);
+    c.lcpos = pick(0, 127); c.lccount = pick(2, 5);
     return c;
   });
   vf::add_sub<GridsC>("grids", 6000, gen, check_grids);
